@@ -20,9 +20,19 @@ Expected(fn, col) ==
     ELSE IF fn = "create_pressure_control" THEN Defaults.create_pressure_control[col]
     ELSE IF fn = "create_flow_control" THEN Defaults.create_flow_control[col]
     ELSE Defaults.create_heat_consumer[col]
+(* kind "default": a call with the optional arguments omitted stores the documented defaults.                      *)
+(* kind "invalid":  a call with one invalid argument (a reference to a missing junction / pipe / std type, a taken *)
+(*                  index, an inadmissible specification) must be refused and leave every digest of the net unchanged *)
+(* kind "valid":    the same call with valid arguments must be accepted (so that the refusals above are not vacuous)  *)
+Changed(b, a) == {k \in DOMAIN b \cup DOMAIN a : k \notin DOMAIN b \/ k \notin DOMAIN a \/ b[k] # a[k]}
 CaseClauses(c) ==
-    IF c.raised # "" THEN {<<"C16.default_call_raised", c.fn, c.raised>>}
-    ELSE {<<"C16.default_value", c.fn, r.col>> : r \in {r \in ToSet(c.rows) : r.obs # Expected(c.fn, r.col)}}
+    IF c.kind = "default" THEN
+        (IF c.raised # "" THEN {<<"C16.default_call_raised", c.fn, c.raised>>}
+         ELSE {<<"C16.default_value", c.fn, r.col>> : r \in {r \in ToSet(c.rows) : r.obs # Expected(c.fn, r.col)}})
+    ELSE IF c.kind = "invalid" THEN
+        (IF c.raised = "" THEN {<<"C16.accepted_invalid", c.fn, c.what>>} ELSE {})
+        \cup {<<"C16.refusal_not_atomic", c.fn, c.what \o ":" \o k>> : k \in Changed(c.before, c.after)}
+    ELSE (IF c.raised # "" THEN {<<"C16.refused_valid", c.fn, c.raised>>} ELSE {})
 Init == ci = 0 /\ bad = {}
 Step == /\ ci < Len(Cases) /\ ci' = ci + 1
         /\ LET c == Cases[ci + 1]  f == CaseClauses(c) IN
